@@ -157,7 +157,9 @@ def break_frame(rng, spec):
     b = copy.deepcopy(spec)
     for _ in range(20):
         kind = rng.choice(['rows', 'rows', 'ncols', 'ncols', 'y-len', 'keys-extra', 'keys-missing', 'empty-stype',
-                           'flat', 'num-rows'])
+                           'flat', 'num-rows', 'dict-entry', 'dict-entry', 'dict-entry'])
+        if kind == 'dict-entry':
+            return break_dict_entry(rng, b)
         if kind == 'rows' and b['feats'] and b['R'] >= 1 and (len(b['feats']) >= 2 or b['num_rows'] is not None
                                                               or b['y'] is not None
                                                               or any(f['kind'] == 'dict' for f in b['feats'])):
@@ -181,6 +183,13 @@ def break_frame(rng, spec):
                 ft['names'].append(ft['names'][0] + '_more')
             return b, kind
         if kind == 'y-len' and b['y'] is not None:
+            if frame.ragged_y(b):
+                rows = b['y']['cells']
+                if rng.random() < .5 and rows:
+                    rows.pop()
+                else:
+                    rows.append([[1] for _ in range(b['y']['C'])])
+                return b, kind + ':ragged-target'
             if rng.random() < .5 and b['y']['vals']:
                 b['y']['vals'].pop()
             else:
@@ -222,6 +231,111 @@ def break_frame(rng, spec):
     return None, None
 
 
+def break_dict_entry(rng, b):
+    """ONE entry of a dict-valued feature disagrees with the rest of the frame on its number of rows or columns: the
+    entry at any position of its dict (2 or 3 keys), the dict-valued stype at any position of feat_dict, one row /
+    column more or less"""
+    c = [ft for ft in b['feats'] if ft['kind'] == 'dict']
+    if not c:
+        if any(ft['s'] == 'text_tokenized' for ft in b['feats']):
+            return None, None
+        ft = frame.gen_feat(rng, 'text_tokenized', b['R'], '')
+        b['feats'].append(ft)
+        b['names_order'].append('text_tokenized')
+    else:
+        ft = rng.choice(c)
+    ft['cells'] = dict(ft['cells'])
+    ft['keys'] = list(ft['keys'])
+    if rng.random() < .5:
+        # a third tokenizer field, anywhere in the dict
+        ft['keys'].insert(rng.randint(0, len(ft['keys'])), 'token_type_ids')
+        ft['cells']['token_type_ids'] = [[[0 for _ in cell] for cell in row] for row in ft['cells']['input_ids']]
+    b['feats'].remove(ft)
+    pos = rng.choice([0, len(b['feats']), rng.randint(0, len(b['feats']))])
+    b['feats'].insert(pos, ft)
+    kpos = rng.randrange(len(ft['keys']))
+    key = ft['keys'][kpos]
+    rows = ft['cells'][key] = [[list(cell) for cell in row] for row in ft['cells'][key]]
+    what = rng.choice(['row-less', 'row-more', 'col-less', 'col-more'])
+    if what == 'row-less' and not rows:
+        what = 'row-more'
+    if what == 'col-less' and ft['C'] == 0:
+        what = 'col-more'
+    if what == 'row-less':
+        rows.pop(rng.randrange(len(rows)))
+    elif what == 'row-more':
+        rows.insert(rng.randint(0, len(rows)), [[1] for _ in range(ft['C'])])
+    elif what == 'col-less':
+        for row in rows:
+            row.pop()
+        ft.setdefault('Ck', {})[key] = ft['C'] - 1
+    else:
+        for row in rows:
+            row.append([1])
+        ft.setdefault('Ck', {})[key] = ft['C'] + 1
+    where = 'first' if pos == 0 else 'last' if pos == len(b['feats']) - 1 else 'middle'
+    kwhere = 'first' if kpos == 0 else 'last' if kpos == len(ft['keys']) - 1 else 'middle'
+    if len(b['feats']) == 1:
+        where = 'only'
+    return b, f"dict-entry:{what.split('-')[0]}:{kwhere}-key-of-{len(ft['keys'])}:{where}-stype"
+
+
+def gen_derive(rng, spec):
+    """frames derived the way every transform derives its output - copy.copy(frame) followed by replacing entries of
+    the copy's feat_dict - or by replacing entries of the frame itself; column lookups on BOTH objects, before and
+    after the derivation, in any order"""
+    names = frame.all_names(spec)
+    same = rng.random() < .2                         # replacement on the frame itself (B is A)
+
+    def repl():
+        out = {}
+        for ft in spec['feats']:
+            if rng.random() < .6:
+                new = frame.gen_feat(rng, ft['s'], spec['R'], '', 'full', C=ft['C'])
+                new['names'] = list(ft['names'])
+                out[ft['s']] = new
+        return out
+    replB, replA = repl(), (repl() if rng.random() < .3 or same else {})
+    if not replA and not replB:
+        ft = rng.choice(spec['feats'])
+        replB = {ft['s']: dict(frame.gen_feat(rng, ft['s'], spec['R'], '', 'full', C=ft['C']), names=list(ft['names']))}
+        if same:
+            replA = replB
+    steps = []
+    n = rng.randint(2, 6)
+    derive_at = rng.choice([0, 1, 1, 2, rng.randint(0, n - 1)])
+    derive_at = min(derive_at, n - 1)
+    hot = rng.choice(names)                          # a name that is looked up on both objects
+    for i in range(n):
+        who = 'A' if i < derive_at else rng.choice(['A', 'B', 'B'])
+        nm = hot if rng.random() < .6 else rng.choice(names + ['no_such_col'])
+        steps.append({'who': who, 'name': nm})
+    return {'kind': 'derive', 'frame': spec, 'same': same, 'replA': replA, 'replB': replB, 'steps': steps,
+            'derive_at': derive_at}
+
+
+def derive_specs(case):
+    """the frame specs (A before, A after, B after) of a derive case"""
+    def apply(spec, repl):
+        out = dict(spec)
+        out['feats'] = [repl.get(ft['s'], ft) for ft in spec['feats']]
+        return out
+    a0 = case['frame']
+    a1 = apply(a0, case['replA'])
+    b1 = a1 if case['same'] else apply(a0, case['replB'])
+    return a0, a1, b1
+
+
+def derive_groups(case):
+    """[(frame spec, [step indices])] - the lookups grouped by the object state they address (one model request each)"""
+    a0, a1, b1 = derive_specs(case)
+    k = case['derive_at']
+    groups = [(a0, [i for i, st in enumerate(case['steps']) if i < k]),
+              (a1, [i for i, st in enumerate(case['steps']) if i >= k and st['who'] == 'A']),
+              (b1, [i for i, st in enumerate(case['steps']) if i >= k and st['who'] == 'B'])]
+    return [g for g in groups if g[1]]
+
+
 def col_partition(rng, spec, k):
     """split every stype's columns into k consecutive (possibly empty) segments -> k part specs"""
     R = spec['R']
@@ -255,7 +369,14 @@ class C08(frame.Findings, core.Check):
     driver = 'drv_c07'
     quick_cases = 4000
     thorough_cases = 30000
-    rule = ('hardening families: special values (+-inf, -2^31, 3e38, -1.0; moving data also -0.0, 2^24+2, 2^40) and float64 '
+    rule = ('derived frames (7%): copy.copy(frame) followed by replacing entries of the copy\'s feat_dict (what every '
+            'transform does), replacement on both objects, replacement on the frame itself; get_col_feat on BOTH objects '
+            'before and after the derivation, in either order, the same name repeatedly - every lookup must return the '
+            'data of the object it is asked on; constructor calls in which ONE entry of a dict-valued feature (first / '
+            'middle / last of 2-3 keys) of a dict-valued stype at any position of feat_dict (first / middle / last / only) '
+            'has one row or one column more or less than the rest; constructor and lookup cases also with a ragged '
+            '(MultiNestedTensor) target and materialized datasets with a sequence_numerical target (direct oracle only); '
+            'hardening families: special values (+-inf, -2^31, 3e38, -1.0; moving data also -0.0, 2^24+2, 2^40) and float64 '
             'features; dict features / parts built in different key insertion orders; re-use: the same cat issued twice on '
             'the same part objects, the first result read again, every operand compared with an identically built twin '
             'afterwards; scale (60 / 120 / 300 cases at stress level 0 / 1 / 2): == on frames with 17..259 / 4 099 rows, '
@@ -289,9 +410,12 @@ class C08(frame.Findings, core.Check):
         n_scale = min(self.N_SCALE[self.level], n // 2)
         for i in range(n):
             if i < n_mat:
-                d = frame.gen_dataset(rng)
+                d = frame.gen_dataset(rng, seq_target=True)
                 ops = frame.gen_sel_ops(rng, d['n'], 2) if rng.random() < .5 else []
-                yield {'kind': 'lookup_mat', 'dataset': d, 'ops': ops}
+                case = {'kind': 'lookup_mat', 'dataset': d, 'ops': ops}
+                if frame.dataset_ragged_target(d):
+                    case['oracle_only'] = True       # materialize() makes a ragged target: not expressible in the model
+                yield case
                 continue
             if i < n_mat + self.N_HUGE[self.level]:
                 R = rng.choice(stress.LADDER_BIG) + rng.choice([0, 1, 2])
@@ -313,25 +437,36 @@ class C08(frame.Findings, core.Check):
                 yield self.gen_rowcat(rng)
             elif u < .55:
                 yield self.gen_colcat(rng)
-            elif u < .83:
+            elif u < .80:
                 spec = frame.gen_frame(rng, pool='safe')
                 b, expect, label = perturb(rng, spec)
                 yield {'kind': 'eq', 'a': spec, 'b': b, 'expect': expect, 'label': label}
-            elif u < .95:
-                spec = frame.gen_frame(rng, pool='full')
+            elif u < .87:
+                yield gen_derive(rng, frame.gen_frame(rng, min_feats=1, pool='full'))
+            elif u < .96:
+                # targets of every legal kind (a ragged target is a part whose rows must agree like any other)
+                spec = frame.gen_frame(rng, pool='full', ragged_y=True)
                 if rng.random() < .25:
-                    yield {'kind': 'make', 'frame': spec, 'expect': 'ok', 'label': 'consistent'}
+                    yield self.flag({'kind': 'make', 'frame': spec, 'expect': 'ok', 'label': 'consistent'})
                 else:
                     b, label = break_frame(rng, spec)
                     if b is None:
-                        yield {'kind': 'make', 'frame': spec, 'expect': 'ok', 'label': 'consistent'}
+                        yield self.flag({'kind': 'make', 'frame': spec, 'expect': 'ok', 'label': 'consistent'})
                     else:
-                        yield {'kind': 'make', 'frame': b, 'expect': 'raises', 'label': label}
+                        yield self.flag({'kind': 'make', 'frame': b, 'expect': 'raises', 'label': label})
             else:
-                spec = frame.gen_frame(rng, min_feats=1, pool='full')
+                spec = frame.gen_frame(rng, min_feats=1, pool='full', ragged_y=True)
                 ops = frame.gen_sel_ops(rng, spec['R'], 2) if rng.random() < .5 else []
                 names = frame.all_names(spec) + ['no_such_col']
-                yield {'kind': 'lookup', 'frame': spec, 'ops': ops + [{'op': 'col', 'name': nm} for nm in names]}
+                yield self.flag({'kind': 'lookup', 'frame': spec, 'ops': ops + [{'op': 'col', 'name': nm} for nm in names]})
+
+    @staticmethod
+    def flag(case):
+        if not frame.model_expressible(case['frame']):
+            case['oracle_only'] = True        # ragged target: the model's target is a 1-D tensor
+            if case['kind'] == 'make':
+                case['label'] += ':ragged-target' if 'ragged-target' not in case['label'] else ''
+        return case
 
     def gen_scaled(self, rng):
         """the scale family: == on frames with 17..4 099 rows / many columns / long cells (equal twins, single-cell and
@@ -576,10 +711,12 @@ class C08(frame.Findings, core.Check):
             except Exception:
                 out = 'raises'
             if (out == 'raises') != (case['expect'] == 'raises'):
-                self._findings.append((f"make/{case['label']}",
+                self._findings.append((f"make/{':'.join(case['label'].split(':')[:2])}",
                                        f"constructor call ({case['label']}) must {'be rejected' if case['expect'] == 'raises' else 'succeed'}",
                                        case['expect'], out if out == 'raises' else 'ok'))
             return out
+        if kind == 'derive':
+            return self.real_derive(case)
         if kind == 'lookup':
             from harness.props import c07
             outs, findings = c07.run_real_program(case['frame'], case['ops'])
@@ -611,6 +748,44 @@ class C08(frame.Findings, core.Check):
             except Exception as e:
                 outs['cols'].append('raises')
                 self._findings.append(('lookup/materialized', f"get_col_feat({c['name']}) raises {type(e).__name__} on a materialized frame", None, None))
+        return outs
+
+    def real_derive(self, case):
+        from torch_frame import stype
+        a0, a1, b1 = derive_specs(case)
+        A = frame.build_real(a0)
+        objs, refs = {'A': A}, {'A': frame.ref_of_spec(a0)}
+        outs = []
+        for i, st in enumerate(case['steps']):
+            if i == case['derive_at']:
+                B = A if case['same'] else copy.copy(A)
+                for s, ft in case['replA'].items():
+                    A.feat_dict[stype(s)] = frame.feat_real(ft)
+                if not case['same']:
+                    for s, ft in case['replB'].items():
+                        B.feat_dict[stype(s)] = frame.feat_real(ft)
+                objs['B'] = B
+                refs = {'A': frame.ref_of_spec(a1), 'B': frame.ref_of_spec(b1)}
+            tf, ref = objs[st['who']], refs[st['who']]
+            try:
+                feat, sty = tf.get_col_feat(st['name'], return_stype=True)
+                out = {'ok': {'stype': sty.value, 'feat': frame.feat_repr(feat)}}
+                got = (sty.value, frame.cells_of_featdata(sty.value, feat))
+            except Exception:
+                out, got = 'raises', None
+            outs.append(out)
+            es, ecol = frame.ref_column(ref, st['name'])
+            where = 'before the derivation' if i < case['derive_at'] else \
+                ('on the frame whose feat_dict entry was replaced' if case['same'] else
+                 'on the copy.copy-derived frame' if st['who'] == 'B' else 'on the source of a copy.copy-derived frame')
+            key = 'derive/lookup/' + ('before' if i < case['derive_at'] else 'replaced-on-the-frame-itself' if case['same']
+                                      else 'copy' if st['who'] == 'B' else 'source-of-the-copy')
+            if (es is None) != (got is None):
+                self._findings.append((key, f"get_col_feat({st['name']}) {where}: " + (
+                    'raises for an existing column' if got is None else 'returns data for an unknown column'), es, out))
+            elif got is not None and (got[0] != es or got[1] != ecol):
+                self._findings.append((key, f"get_col_feat({st['name']}) {where} does not return that "
+                                       f"frame's column data (step {i} of {case['steps']})", None, None))
         return outs
 
     @staticmethod
@@ -746,6 +921,9 @@ class C08(frame.Findings, core.Check):
             return [{'cmd': 'make', 'frame': frame.model_frame(case['frame'])}]
         if kind == 'lookup':
             return [{'cmd': 'prog', 'frame': frame.model_frame(case['frame']), 'ops': frame.model_ops(case['ops'])}]
+        if kind == 'derive':
+            return [{'cmd': 'prog', 'frame': frame.model_frame(sp),
+                     'ops': [{'op': 'col', 'name': case['steps'][i]['name']} for i in idx]} for sp, idx in derive_groups(case)]
         # materialized: the model starts from the representation of the real materialized frame (the converter is
         # C01/C02's subject); what is compared is the lookup table built from the merged name table
         dspec = case['dataset']
@@ -758,6 +936,12 @@ class C08(frame.Findings, core.Check):
     def model_outcome(self, case, replies):
         if case.get('oracle_only'):
             return core.SKIP_MODEL
+        if case['kind'] == 'derive':
+            out = [None] * len(case['steps'])
+            for (sp, idx), rep in zip(derive_groups(case), replies):
+                for i, o in zip(idx, rep):
+                    out[i] = o
+            return out
         r = replies[0]
         if case['kind'] == 'lookup_mat':
             k = len(case['ops'])
@@ -791,7 +975,7 @@ class C08(frame.Findings, core.Check):
             return core.stable_hash(case) if w['R'] >= 1 and w['feats'] else None
         if kind == 'eq':
             return core.stable_hash(case) if case['a']['R'] >= 1 and case['a']['feats'] else None
-        if kind in ('make', 'lookup'):
+        if kind in ('make', 'lookup', 'derive'):
             return core.stable_hash(case) if case['frame']['feats'] else None
         return core.stable_hash(case)
 
@@ -841,10 +1025,25 @@ class C08(frame.Findings, core.Check):
                          f"rows:{self._bucket(case['a']['R'])}"] + self._frame_labels(case['a'])
         if kind == 'make':
             return [f"make:{case['label']}:{res}"]
+        if kind == 'derive':
+            whos = [st['who'] for st in case['steps'][case['derive_at']:]]
+            labs = ['derive:' + ('replace-on-the-frame-itself' if case['same'] else 'copy.copy+replace')]
+            if case['derive_at'] > 0:
+                labs.append('derive:lookup-before-the-derivation')
+            if not case['same'] and 'A' in whos and 'B' in whos:
+                labs.append('derive:lookups-on-both-objects:' + ('source-first' if whos[0] == 'A' else 'copy-first'))
+            if case['replA'] and not case['same']:
+                labs.append('derive:both-objects-replaced')
+            hot = [st['name'] for st in case['steps']]
+            if len(set((st['who'], st['name']) for st in case['steps'])) < len({st['name'] for st in case['steps']}) * 2 \
+                    and any(hot.count(nm) >= 2 for nm in hot):
+                labs.append('derive:same-name-looked-up-again')
+            return labs + [f"kind:{ft['kind']}" for ft in case['frame']['feats']]
         if kind == 'lookup':
             return sc + ['lookup:frame'] + [f"lookup:{'ok' if isinstance(o, dict) else o}" for o in out[-3:]] + \
                 self._frame_labels(case['frame'])
-        return ['lookup:materialized'] + [f"materialized-col:{c['stype']}" for c in case['dataset']['cols']]
+        return ['lookup:materialized'] + [f"materialized-col:{c['stype']}" for c in case['dataset']['cols']] + \
+            (['lookup:materialized:ragged-target(oracle-only)'] if case.get('oracle_only') else [])
 
     def extra_checks(self, rng, tier, report):
         """exhaustive boxes: every weak composition of n rows into k parts (row partitions) and every placement of the
@@ -878,6 +1077,11 @@ class C08(frame.Findings, core.Check):
                     p['num_rows'] = 3
             cases.append({'kind': 'cat', 'dim': 1, 'mode': 'partition', 'whole': {'frame': spec, 'ops': []},
                           'expect': 'equal', 'parts': [{'frame': left, 'ops': []}, {'frame': right, 'ops': []}]})
+        report['extra']['observed_outside_generated_domain'] = [
+            'frames whose target is a MultiNestedTensor (legal for the constructor and row selection, produced by '
+            'Dataset.materialize() for a sequence_numerical target): tf == tf raises TypeError (torch.allclose on a '
+            'MultiNestedTensor) and cat([tf[:2], tf[2:]], dim=0) raises TypeError (torch.cat on MultiNestedTensors); == and '
+            'cat are generated with dense 1-D targets only (reported as a suspected defect, not judged)']
         frame.run_box(self, cases, report, 'partition_box',
                       {'row_partitions': nrow, 'col_partitions': len(cases) - nrow, 'rows': f'0..{N}', 'parts': f'1..{K}'})
 
